@@ -547,3 +547,55 @@ def assoc_pairs():
     for n, chain, grouped, dst in mixed:
         out.append(("assoc_%s" % n, hdr + "  %s = %s;\n}\n" % (dst, chain), hdr + "  %s = %s;\n}\n" % (dst, grouped)))
     return out
+
+
+WGSL_BUILTINS = ("abs acos acosh all any arrayLength asin asinh atan atan2 atanh atomicAdd atomicAnd atomicCompareExchangeWeak atomicExchange "
+                 "atomicLoad atomicMax atomicMin atomicOr atomicStore atomicSub atomicXor bitcast ceil clamp cos cosh countLeadingZeros countOneBits "
+                 "countTrailingZeros cross degrees determinant distance dot dot4I8Packed dot4U8Packed dpdx dpdxCoarse dpdxFine dpdy dpdyCoarse dpdyFine "
+                 "exp exp2 extractBits faceForward firstLeadingBit firstTrailingBit floor fma fract frexp fwidth fwidthCoarse fwidthFine insertBits "
+                 "inverseSqrt ldexp length log log2 max min mix modf normalize pack2x16float pack2x16snorm pack2x16unorm pack4x8snorm pack4x8unorm "
+                 "pack4xI8 pack4xI8Clamp pack4xU8 pack4xU8Clamp pow quantizeToF16 radians reflect refract reverseBits round saturate select sign sin "
+                 "sinh smoothstep sqrt step storageBarrier tan tanh textureBarrier textureDimensions textureGather textureGatherCompare textureLoad "
+                 "textureNumLayers textureNumLevels textureNumSamples textureSample textureSampleBaseClampToEdge textureSampleBias textureSampleCompare "
+                 "textureSampleCompareLevel textureSampleGrad textureSampleLevel textureStore transpose trunc unpack2x16float unpack2x16snorm "
+                 "unpack2x16unorm unpack4x8snorm unpack4x8unorm unpack4xI8 unpack4xU8 workgroupBarrier workgroupUniformLoad subgroupAdd subgroupAll "
+                 "subgroupAny subgroupBallot subgroupBroadcast subgroupBroadcastFirst subgroupShuffle quadBroadcast quadSwapX "
+                 "vec2 vec3 vec4 mat2x2 mat3x3 mat4x4 array i32 u32 f32 bool").split()
+
+
+def builtin_arity_inputs():
+    """every builtin (and bare constructor) called with 0, 1, 2, 3, ... arguments of each of a few kinds: the lowering of a
+    builtin that indexes its argument list before checking its length shows up as an index-out-of-range panic"""
+    hdr = ("@group(0) @binding(0) var t: texture_2d<f32>;\n@group(0) @binding(1) var s: sampler;\n@group(0) @binding(2) var td: texture_depth_2d;\n"
+           "@group(0) @binding(3) var sc: sampler_comparison;\n@group(0) @binding(4) var ts: texture_storage_2d<rgba8unorm, write>;\n"
+           "@group(0) @binding(5) var<storage, read_write> a: atomic<u32>;\n@group(0) @binding(6) var<storage, read_write> arr: array<f32>;\n"
+           "var<workgroup> w: u32;\n")
+    argsets = ["", "t", "t, s", "td, sc", "ts", "0", "0, t", "t, s, vec2<f32>(0.0)", "&a", "&a, 1u", "&arr", "&w", "1.0", "1.0, 2.0", "1.0, 2.0, 3.0",
+               "vec3<f32>(1.0)", "vec3<f32>(1.0), vec3<f32>(2.0)", "1u, 2u, 3u, 4u, 5u", "true", "t, vec2<i32>(0)", "ts, vec2<i32>(0)"]
+    out = []
+    for f in WGSL_BUILTINS:
+        for a in argsets:
+            for form in ("let x = %s(%s);", "%s(%s);", "_ = %s(%s);"):
+                if form != "let x = %s(%s);" and a not in ("", "t", "&a", "1.0"):
+                    continue
+                out.append((hdr + "@fragment fn main() -> @location(0) vec4<f32> { " + (form % (f, a)) + " return vec4<f32>(0.0); }").encode("utf-8"))
+    return out
+
+
+def void_call_inputs():
+    """a call that yields no value (void user function, barrier, store-like builtin) in every position where a value is
+    required"""
+    hdr = ("@group(0) @binding(0) var<storage, read_write> a: atomic<u32>;\n@group(0) @binding(1) var ts: texture_storage_2d<rgba8unorm, write>;\n"
+           "@group(0) @binding(2) var<storage, read_write> o: array<f32, 4>;\nfn g() {}\nfn h(x: f32) {}\n")
+    voids = ["g()", "workgroupBarrier()", "storageBarrier()", "atomicStore(&a, 1u)", "textureStore(ts, vec2<i32>(0), vec4<f32>(1.0))", "h(1.0)"]
+    ctxs = ["let x = *%s;", "let x = -%s;", "let x = !%s;", "let x = ~%s;", "let x = %s + %s;", "let x = 1.0 * %s;", "let x = abs(%s);", "let x = vec2<f32>(%s);",
+            "let x = select(%s, %s, %s);", "let x = f32(%s);", "let x = bitcast<u32>(%s);", "var x = %s;", "let x = %s;", "if %s { }", "h(%s);", "o[0] = %s;",
+            "o[u32(%s)] = 1.0;", "let x = %s.x;", "let x = %s[0];", "switch %s { default: { } }", "for (var i = %s; i < 2; i++) { }", "while %s { }",
+            "loop { break if %s; }", "let x = &%s;", "_ = %s;", "let x = array<f32, 2>(%s, %s);", "let x = min(1.0, %s);", "*%s = 1.0;", "%s += 1.0;"]
+    out = []
+    for v in voids:
+        for c in ctxs:
+            body = c.replace("%s", v)
+            out.append((hdr + "@compute @workgroup_size(1) fn main() { " + body + " }").encode("utf-8"))
+            out.append((hdr + "fn r() -> f32 { return %s; }\n@compute @workgroup_size(1) fn main() { }" % v).encode("utf-8"))
+    return sorted(set(out))
